@@ -24,7 +24,8 @@ RULE = ("lists of 1-8 tempo changes, first at measure 0 beat 0: (a) the half-bea
         "(enumerated exhaustively on the thorough tier, sampled on quick), (b) finer grids (denominators 1..96, 5, 7, 1000, 10000), "
         "(c) positions a whole number of measures / beats plus a remainder on either side of extend_threshold "
         "(incl. exactly the double 0.001 and 1/1000), (d) gaps shorter than the threshold, duplicates, unsorted input, "
-        "already seated lists; histories on the mutable records before the call (read beat_length/measure_length or query the map, "
+        "already seated lists; lists of 17-64 changes with stacks of 2-3 changes on one position (different bpms, stack index swept), "
+        "seated and unseated; histories on the mutable records before the call (read beat_length/measure_length or query the map, "
         "edit bpm/metronome in place, both orders - the model gets the edited values); any positive bpm (exactly-representable set or arbitrary decimals), metronomes 1-8 and a few "
         "fractional ones, any initial offset; claims reseat / from_snap / tm_reseat; exact and float modes. "
         "non-trivial = some interval takes a non-default branch of the loop")
@@ -213,11 +214,61 @@ def gen_changes(rng, kind):
     return cs
 
 
+def gen_long(rng, i):
+    """17-64 changes with stacks of two or three changes on exactly one position (different bpms), the stack index
+    swept by the case number: the order inside a stack decides which bpm is in force after it (the later in list
+    order - `list.sort` is stable), and sort implementations differ exactly on long lists with ties"""
+    n = rng.choice([17, 17, 18, 20, 24, 33, 40, 64])
+    seated = rng.random() < 0.5
+    met = Fr(rng.choice([4, 4, 3, 5]))
+    n_stacks = rng.choice([1, 1, 2, 3])
+    starts = {(i + 7 * k) % (n - 3) + 1 for k in range(n_stacks)}      # index of the first member of a stack
+    if rng.random() < 0.3:
+        starts.add(rng.randrange(1, n - 2))
+    cs = [dict(bpm=R(rand_bpm(rng)), met=R(met), measure=0, beat=R(0))]
+    pm, pb = 0, Fr(0)
+    stack_left = 0
+    k = 1
+    while k < n:
+        if stack_left == 0 and k in starts:
+            stack_left = rng.choice([1, 1, 2])          # this many further changes on the position of change k
+        elif stack_left > 0:
+            stack_left -= 1
+            prev = F(cs[-1]["bpm"])
+            b = rand_bpm(rng)
+            if b == prev:
+                b = prev * 2
+            cs.append(dict(bpm=R(b), met=R(met), measure=pm, beat=R(pb)))
+            k += 1
+            continue
+        if seated:
+            dist = rng.randint(1, 3) * met - pb
+        else:
+            d = rng.choice([1, 2, 2, 3, 4, 8])
+            dist = Fr(rng.randrange(1, int(3 * met * d) + 1), d)
+        dm, nb = place(pb + dist, met)
+        pm, pb = pm + dm, nb
+        cs.append(dict(bpm=R(rand_bpm(rng)), met=R(met), measure=pm, beat=R(pb)))
+        k += 1
+    return cs
+
+
 def gen(rng, tier, i):
     if tier == "thorough" and i < hb_count():
         return dict(claim="reseat", mode="exact", t0=R(0), cs=hb_case(i))
     r = rng.random()
     mode = "exact" if rng.random() < 0.7 else "float"
+    if r > 0.9:
+        cs = gen_long(rng, i)
+        claim = rng.choice(["reseat", "reseat", "from_snap", "tm_reseat"])
+        if claim == "tm_reseat":
+            mode = "exact"
+        if rng.random() < 0.15:
+            tail = cs[1:]
+            rng.shuffle(tail)                # ties then keep their (shuffled) list order
+            cs = cs[:1] + tail
+        t0 = Fr(rng.choice([0, -1000, 1234, Fr(-75, 2)]))
+        return dict(claim=claim, mode=mode, t0=R(t0), cs=cs, _long=True)
     if r < 0.12:
         return dict(claim="reseat", mode="exact", t0=R(0), cs=hb_case(rng.randrange(hb_count())))
     kind = rng.choice(["grid", "grid", "grid", "near_measure", "near_measure", "near_measure", "near_beat", "tiny", "seated",
@@ -489,7 +540,7 @@ def run(case, drv):
     jcs = exact_cs(cs if claim == "tm_reseat" else final_cs(case), mode)
     tol = R(0) if mode == "exact" else TOL_FLOAT
     dom = drv.call("c11.dom", cs=jcs, thr=THR)["ok"]
-    tags = [mode, claim] + sorted(set(dom["classes"])) + ([f"hist:{hist['order']}:{hist['read']}"] if hist else [])
+    tags = [mode, claim] + (["long-with-ties"] if len(cs) >= 17 else []) + sorted(set(dom["classes"])) + ([f"hist:{hist['order']}:{hist['read']}"] if hist else [])
     # = the hypotheses `Dom thr l` of Props/C11.lean (the theorems are stated for ascending input)
     in_dom = dom["sorted"] and dom["wf"] and dom["first_zero"] and dom["no_beat_extend"] and dom["no_tiny_gap"] and dom["met_ok"]
     quantified = dom["wf"] and dom["first_zero"] and dom["met_ok"]        # inside the property's own quantifier
